@@ -81,12 +81,16 @@ pub fn programs(thorough: bool, seed: u64) -> Vec<(String, String)> {
     }
     // --- joins: every join type x predicate placements (the outer-join pushdown cases)
     let wheres = ["t1.b > 1", "t2.c > 1", "t2.c IS NULL", "t1.b IS NULL", "t1.b > 1 AND t2.c > 1", "t1.b > 1 OR t2.c > 1", "t1.b = t2.c", "t2.c IS NOT NULL", "t1.a = 1", "t2.a = 1",
-                  "t1.b + t2.c > 0", "NOT (t2.c > 1)", "t2.c > 1 OR t2.c IS NULL", "CASE WHEN t2.c IS NULL THEN 0 ELSE t2.c END > 0"];
+                  "t1.b + t2.c > 0", "NOT (t2.c > 1)", "t2.c > 1 OR t2.c IS NULL", "CASE WHEN t2.c IS NULL THEN 0 ELSE t2.c END > 0",
+                  // null-rejection analysis of outer-join elimination: AND / OR below NOT and the IS [NOT] TRUE/FALSE/UNKNOWN family, conjuncts on different sides
+                  "NOT (t1.b > 1 AND t2.c > 1)", "(t1.b > 1 AND t2.c > 1) IS FALSE", "(t1.b > 1 AND t2.c > 1) IS NOT TRUE", "(t1.b > 1 OR t2.c > 1) IS NOT NULL",
+                  "(t1.b > 1 AND t2.c > 1) IS NOT UNKNOWN", "(t1.b > 1 AND t2.c > 1) = false", "(t2.c > 1) IS NOT TRUE", "NOT (t1.b > 1 OR t2.c > 1)", "(t1.b > 1 OR t2.c > 1) IS FALSE",
+                  "(t1.b > 1 AND t2.c > 1) IS UNKNOWN"];
     for jt in JOINS {
         for w in wheres {
             add("join-where", format!("SELECT t1.a, t1.b, t2.c FROM t1 {jt} t2 ON t1.a = t2.a WHERE {w}"));
         }
-        for onx in ["t1.b > 1", "t2.c > 1", "t1.b < t2.c", "t2.c IS NULL", "t1.b = 1 AND t2.c = 2"] {
+        for onx in ["t1.b > 1", "t2.c > 1", "t1.b < t2.c", "t2.c IS NULL", "t1.b = 1 AND t2.c = 2", "t1.b IS NOT DISTINCT FROM t2.c"] {
             add("join-on", format!("SELECT t1.a, t1.b, t2.c FROM t1 {jt} t2 ON t1.a = t2.a AND {onx}"));
         }
         add("join-using", format!("SELECT * FROM t1 {jt} t2 USING (a)"));
